@@ -18,7 +18,7 @@ RULE = ("trajectories of generated worlds (heterogeneous voltages, three-phase m
         "phases / constraint dictionaries and the sessions; constraint subsets are requested in random order; non-trivial = "
         ">=2 distinct voltages and a subset query whose order differs from network order; distinct = history signature + query")
 PROBES = ["subset_reordered", "hetero_voltage", "nema_checked", "nema_zero_mean", "threshold_query", "unserved_session", "requery_after_update_constraint", "degenerate_subset_request",
-          "magnitudes_flag_true", "complex_return"]
+          "magnitudes_flag_true", "complex_return", "refused_add_then_corrected"]
 FAULT_DIMENSION = "none - post-run oracle on recorded trajectories (crash+rerun only diversifies the trajectories)"
 ASSUMPTIONS = ["constraint currents are compared by magnitude (either complex or real return passes)",
                "sessions within 1e-9 kWh of the demands-met threshold are inconclusive"]
@@ -168,6 +168,31 @@ def check(sc):
                             break
                     if out.viol:
                         break
+            # the analyst adds a constraint of their own to the finished simulation's network, gets it wrong the first time (a
+            # station that does not exist: refused with KeyError), corrects it and adds it again under the same name
+            if not out.viol and r.random() < 0.3:
+                i0 = r.randrange(len(ids))
+                known, coef = ids[i0], r.choice([1, 2, -1, 0.5])
+                refused = False
+                try:
+                    sim.network.add_constraint(sut.Current({known: coef, "NO-SUCH-STATION": 1}), 25.0, name="analyst's row")
+                except KeyError:
+                    refused = True
+                out.probe("refused_add_then_corrected")
+                if refused:
+                    coef = coef * 2        # (the corrected version also fixes the weight)
+                    sim.network.add_constraint(sut.Current({known: coef}), 25.0, name="analyst's row")
+                    res3 = analysis.constraint_currents(sim, return_magnitudes=True, constraint_ids=["analyst's row"])
+                    if sorted(res3.keys()) != ["analyst's row"]:
+                        out.add("C18/constraint_currents_keys", "after a refused and then corrected add_constraint: requested [\"analyst's row\"], got keys %s "
+                                "(network now lists %s)" % (sorted(res3.keys()), list(sim.network.constraint_index)[-3:]))
+                    else:
+                        for t in range(W):
+                            w = abs(coef * R[i0][t])
+                            if not close(abs(complex(res3["analyst's row"][t])), w, rel=1e-8):
+                                out.add("C18/constraint_currents", "constraint added after a refused first attempt: t=%d returns %r, |%r x rate of %s| = %r"
+                                        % (t, complex(res3["analyst's row"][t]), coef, known, w))
+                                break
             # energies
             if not out.viol:
                 sess = {s["session_id"]: s for s in sc["sessions"]}
